@@ -376,3 +376,7 @@ def run(ctx, report: Report) -> None:
     from .sem import list_context_table
     list_context_table(ctx, r4)
 
+    from .sem import default_button_table
+    default_button_table(ctx, r3)
+
+
